@@ -74,7 +74,7 @@ def run(ctx):
               "all %d members initialised from the same member of the source" % len(fields),
               "copy constructor misses %s / initialises from another member: %s" % ([m.split("::")[-1] for m in missing], wrong))
     mk = [c for c in cc.calls() if (callee_name(c) or "").startswith("std::make_unique")]
-    okdeep = any(pf in depends(cc, c)[0] and any(x.get("k") == "ref" and x.get("dk") == "param" for x in walk(c)) for c in mk)
+    okdeep = any(pf in depends(cc, c)[0] and any(x.get("k") == "ref" and x.get("dk") == "param" for x in walk(facts.expand(cc, c))) for c in mk)
     res.check(okdeep, "C14-R2", "Packet(const Packet&):clone", cc.loc, "payload cloned with make_unique from the source's payload",
               "copy constructor does not allocate a new payload from the source's payload (shallow copy)")
     # ---- swap
